@@ -100,6 +100,16 @@ pub fn judge(root: &Path, h: &Hist) -> Result<Outcome, (String, String)> {
             reader_model.insert(ks.name.clone(), v);
         }
     }
+    // application data (dot-prefixed) sits next to the entries in every directory of the write cache:
+    // it must never be counted, moved or removed
+    let app_dirs: Vec<std::path::PathBuf> = match &wspec {
+        DirSpec::Plain { dir, .. } => vec![root.join(dir)],
+        DirSpec::Sharded { dir, shards, .. } => (0..*shards).map(|s| root.join(dir).join(crate::shardoracle::dir_name(s as u64))).collect(),
+    };
+    for d in &app_dirs {
+        plant_file(&d.join(".app_state"), b"application state", 0o644);
+        set_times_ns(&d.join(".app_state"), old - 120_000_000_000, old).unwrap();
+    }
     let spec = StackSpec { writer: Some(wspec.clone()), readers: if with_reader { vec![reader_spec] } else { vec![] }, checker: Checker::None, auto_sync: false };
     let handles: Vec<Handle> = (0..h.handles.max(1)).map(|_| if stacked { open_stack(root, &spec) } else { open_dir(root, &wspec) }).collect();
     let world = trace_world(&[root]);
@@ -179,7 +189,7 @@ pub fn judge(root: &Path, h: &Hist) -> Result<Outcome, (String, String)> {
                 }
             }
             // --- every disappearance must be one of those evictions
-            for (p, e) in prev.iter().filter(|(p, e)| e.kind == 'f' && !p.contains(".kismet_temp")) {
+            for (p, e) in prev.iter().filter(|(p, e)| e.kind == 'f' && !p.contains(".kismet_temp") && !p.rsplit('/').next().unwrap_or("").starts_with('.')) {
                 let name = p.rsplit('/').next().unwrap();
                 let still = cur.contains_key(p);
                 if !still {
@@ -266,7 +276,7 @@ pub fn judge(root: &Path, h: &Hist) -> Result<Outcome, (String, String)> {
             }
             // --- the disk agrees with the model: exactly one copy per modelled key, none for others
             let mut on_disk: BTreeMap<String, Vec<(String, Option<Val>)>> = BTreeMap::new();
-            for (p, e) in cur.iter().filter(|(p, e)| e.kind == 'f' && !p.contains(".kismet_temp")) {
+            for (p, e) in cur.iter().filter(|(p, e)| e.kind == 'f' && !p.contains(".kismet_temp") && !p.rsplit('/').next().unwrap_or("").starts_with('.')) {
                 on_disk.entry(p.rsplit('/').next().unwrap().to_string()).or_default().push((p.clone(), e.val.clone()));
             }
             for (k, copies) in &on_disk {
@@ -305,6 +315,19 @@ pub fn judge(root: &Path, h: &Hist) -> Result<Outcome, (String, String)> {
         }
         Ok(())
     })();
+    let res = res.and_then(|_| {
+        for d in &app_dirs {
+            let ok = crate::shim::bypass(|| std::fs::read(d.join(".app_state"))).map(|b| b == b"application state").unwrap_or(false);
+            let mt = crate::shim::bypass(|| std::fs::metadata(d.join(".app_state"))).map(|m| {
+                use std::os::unix::fs::MetadataExt;
+                m.mtime() as i128 * 1_000_000_000 + m.mtime_nsec() as i128
+            }).unwrap_or(0);
+            if !ok || mt != old {
+                return Err(("c11:application-file-disturbed".to_string(), format!("{} was removed or altered during the history", d.join(".app_state").display())));
+            }
+        }
+        Ok(())
+    });
     out.writing_handles = writers_used.len();
     drop(handles);
     cleanup();
